@@ -36,7 +36,13 @@ BUDGET = {"quick": 400, "thorough": 1800}
 
 def cases(tier, seed):
   n = 240 if tier == "quick" else 6000
-  return [{"id": f"f{seed}_{i}", "seed": seed * 1000003 + i} for i in range(n)]
+  out = []
+  for i in range(n):
+    out.append({"id": f"f{seed}_{i}", "seed": seed * 1000003 + i})
+    if i % 2 == 1:
+      # "sens" family: same trees, plus collision sensors that keep filtered-out pairs alive in the collision pipeline
+      out.append({"id": f"s{seed}_{i // 2}", "seed": seed * 1000003 + 500000 + i // 2, "kind": "sens", "weight": 1.5})
+  return out
 
 
 def _f(x):
@@ -225,6 +231,81 @@ def rule_set(mjm, mjd):
   return out, why
 
 
+FILTERED = ("contype-conaffinity", "same-weld-body", "parent-child", "exclude", "same-body", "both-static")
+SENSOR_TAGS = {mujoco.mjtSensor.mjSENS_GEOMDIST: "distance", mujoco.mjtSensor.mjSENS_GEOMNORMAL: "normal", mujoco.mjtSensor.mjSENS_GEOMFROMTO: "fromto"}
+
+
+def add_sensors(rng, xml, mjm0):
+  """Adds 1-4 collision sensors (<distance> / <normal> / <fromto>, geom- or body-level, either order, shared pairs) to the
+  model, aimed with a 70% bias at geom pairs the contact filter rejects (classified by rule_set at qpos0, where every
+  geom overlaps every other), else at ordinary and explicit pairs. Planes are never sensor objects."""
+  mjd0 = mujoco.MjData(mjm0)
+  mujoco.mj_kinematics(mjm0, mjd0)
+  _, why = rule_set(mjm0, mjd0)
+  by = {}
+  for key, v in why.items():
+    g1, g2 = sorted(key)
+    if int(mjm0.geom_type[g1]) == 0 or int(mjm0.geom_type[g2]) == 0:
+      continue
+    by.setdefault(v, []).append((g1, g2))
+  if not by:
+    return None, []
+  every = sorted(p for v in by.values() for p in v)
+  filt = [c for c in FILTERED if c in by]
+  gname = lambda g: mujoco.mj_id2name(mjm0, mujoco.mjtObj.mjOBJ_GEOM, g)
+  bname = lambda b: mujoco.mj_id2name(mjm0, mujoco.mjtObj.mjOBJ_BODY, b)
+  out, feats = [], set()
+  prev = None
+  for k in range(int(rng.integers(1, 5))):
+    r = rng.random()
+    if prev is not None and r < 0.12:
+      g1, g2 = prev  # a second sensor on the same geom pair (shared collision id)
+      feats.add("sensor:shared_pair")
+    elif r < 0.7 and filt:
+      c = filt[int(rng.integers(len(filt)))]
+      g1, g2 = by[c][int(rng.integers(len(by[c])))]
+    elif r < 0.85 and "dynamic-pair" in by:
+      g1, g2 = by["dynamic-pair"][int(rng.integers(len(by["dynamic-pair"])))]
+    elif "explicit-pair" in by:
+      g1, g2 = by["explicit-pair"][int(rng.integers(len(by["explicit-pair"])))]
+    else:
+      g1, g2 = every[int(rng.integers(len(every)))]
+    prev = (g1, g2)
+    if rng.random() < 0.5:
+      g1, g2 = g2, g1
+    b1, b2 = int(mjm0.geom_bodyid[g1]), int(mjm0.geom_bodyid[g2])
+    a = []
+    for tag, g, b in (("1", g1, b1), ("2", g2, b2)):
+      if b1 != b2 and b != 0 and rng.random() < 0.3:
+        a.append(f'body{tag}="{bname(b)}"')
+        feats.add("sensor:body_level")
+      else:
+        a.append(f'geom{tag}="{gname(g)}"')
+        feats.add("sensor:geom_level")
+    kind = ("distance", "normal", "fromto")[int(rng.integers(3))]
+    cut = [0.0, 0.05, 1.0, 10.0][int(rng.integers(4))]
+    feats.add("sensor:" + kind)
+    feats.add(f"sensor:cutoff={cut:g}")
+    out.append(f'<{kind} name="s{k}" {" ".join(a)} cutoff="{cut:g}"/>')
+  return xml.replace("</mujoco>", "<sensor>" + "".join(out) + "</sensor></mujoco>"), sorted(feats)
+
+
+def sensor_pairs(mjm):
+  """geom pairs each collision sensor observes (as io.put_model enumerates them): list of (sensor id, [(g1, g2)...])."""
+  out = []
+  for s in range(mjm.nsensor):
+    if int(mjm.sensor_type[s]) not in SENSOR_TAGS:
+      continue
+    ends = []
+    for t, i in ((int(mjm.sensor_objtype[s]), int(mjm.sensor_objid[s])), (int(mjm.sensor_reftype[s]), int(mjm.sensor_refid[s]))):
+      if t == mujoco.mjtObj.mjOBJ_BODY:
+        ends.append(list(range(int(mjm.body_geomadr[i]), int(mjm.body_geomadr[i]) + int(mjm.body_geomnum[i]))))
+      else:
+        ends.append([i])
+    out.append((s, [(a, b) for a in ends[0] for b in ends[1]]))
+  return out
+
+
 def run_case(case):
   import mujoco_warp as mjw
   import warp as wp
@@ -237,6 +318,19 @@ def run_case(case):
   if mjm is None:
     rec.rejected = "mujoco compile"
     return rec.result()
+  sens = case.get("kind") == "sens"
+  if sens:
+    xml2, sfeats = add_sensors(rng, xml, mjm)
+    if xml2 is None:
+      rec.rejected = "no geom pair a collision sensor could observe"
+      return rec.result()
+    xml = xml2
+    feats = sorted(set(feats) | set(sfeats))
+    mjm = gen.compile_xml(xml)
+    if mjm is None:
+      rec.rejected = "mujoco compile (sensors)"
+      rec.count("rejected_sensor_compile")
+      return rec.result()
   _col.pin_primitive_dispatch(mjm)
   try:
     m = mw.put_model(mjm)
@@ -260,24 +354,69 @@ def run_case(case):
       elif t == mujoco.mjtJoint.mjJNT_FREE:
         q[a : a + 3] += rng.normal(size=3) * 0.01
     qs.append(q.astype(np.float32).astype(np.float64))
+  if sens and rng.random() < 0.5:
+    # last world: free / sliding bodies moved away, so that sensor-observed pairs (also ones that pass the filter) are
+    # beyond margin: they stay in the pipeline for the sensor but must not be contacts
+    q = qs[-1].copy()
+    for j in range(mjm.njnt):
+      a = mjm.jnt_qposadr[j]
+      if mjm.jnt_type[j] == mujoco.mjtJoint.mjJNT_FREE:
+        q[a : a + 3] += rng.normal(size=3) * 2.0
+      elif mjm.jnt_type[j] == mujoco.mjtJoint.mjJNT_SLIDE:
+        q[a] = rng.normal() * 2.0
+    qs[-1] = q.astype(np.float32).astype(np.float64)
+    feats = sorted(set(feats) | {"sensor:apart_world"})
   npair = mjm.ngeom * (mjm.ngeom - 1) // 2
-  d = mjw.make_data(mjm, nworld=nworld, nconmax=2 * npair + 16, njmax=8)
+  refs = []
+  if sens:
+    for w in range(nworld):
+      mjd = mujoco.MjData(mjm)
+      mjd.qpos[:] = qs[w]
+      mujoco.mj_fwdPosition(mjm, mjd)
+      mujoco.mj_sensorPos(mjm, mjd)
+      refs.append((_col.mj_contacts(mjm, mjd), mjd))
+    need = 12 * (max(r[0]["geom"].shape[0] for r in refs) + 8)
+    njmax = 256 if need <= 256 else (1024 if need <= 1024 else 4096)
+  else:
+    njmax = 8
+  d = mjw.make_data(mjm, nworld=nworld, nconmax=2 * npair + 16, njmax=njmax)
   wp.copy(d.qpos, wp.array(np.stack(qs).astype(np.float32), dtype=float))
   d.overflow.zero_()
   mjw.kinematics(m, d)
+  if sens:
+    mjw.com_pos(m, d)
   mjw.collision(m, d)
+  if sens:
+    mjw.make_constraint(m, d)
+    mjw.sensor_pos(m, d)
   if np.any(mw.npy(d.overflow)) or int(mw.npy(d.nacon)[0]) > d.naconmax or int(mw.npy(d.ncollision)[0]) > d.naconmax:
     rec.inconcl("capacity overflow")
     return rec.result()
   cw = _col.world_contacts(d)
+  spairs = sensor_pairs(mjm) if sens else []
+  observed = {frozenset(p) for _, ps in spairs for p in ps}
   nacc = nrej = 0
   for w in range(nworld):
-    ref, mjd = _col.mj_collide(mjm, qs[w])
+    if sens:
+      ref, mjd = refs[w]
+    else:
+      ref, mjd = _col.mj_collide(mjm, qs[w])
     rules, why = rule_set(mjm, mjd)
     mjset = {frozenset(map(int, p)) for p in ref["geom"]}
     got = {}
+    ctype = np.asarray(cw[w]["type"]).astype(np.int64)
     for i, p in enumerate(cw[w]["geom"]):
-      got.setdefault(frozenset(map(int, p)), []).append(i)
+      key = frozenset(map(int, p))
+      if ctype[i] & 1:  # ContactType.CONSTRAINT: a contact in MuJoCo's sense
+        got.setdefault(key, []).append(i)
+        continue
+      # sensor-only pool entry: legitimate only for a pair a collision sensor observes, and it must stay out of the solver
+      rec.check()
+      rec.cover("sensor_only_pool_entries", 1)
+      if not (ctype[i] & 2) or key not in observed:
+        rec.viol("non-constraint-pool-entry-without-sensor", f"world {w}: contact pool entry for geoms {sorted(key)} has type {int(ctype[i])} but no collision sensor observes the pair")
+      if np.any(np.asarray(cw[w]["efc_address"][i]) >= 0):
+        rec.viol("sensor-only-contact-has-constraint-rows", f"world {w}: sensor-only entry for geoms {sorted(key)} has efc_address {np.asarray(cw[w]['efc_address'][i]).tolist()}")
     gotset = set(got)
     rec.check()
     if mjset != rules:
@@ -288,7 +427,19 @@ def run_case(case):
     nrej += sum(1 for k, v in why.items() if k not in rules and v not in ("not-overlapping", "plane-plane"))
     for k, v in why.items():
       rec.cover("rule:" + v, 1)
+    for key in sorted(observed, key=sorted):
+      rec.check()
+      rec.cover("sensor_pair:" + why.get(key, "?"), 1)
+      if why.get(key) in FILTERED:
+        rec.cover("sensor_pairs_filtered_and_within_margin", 1)
     for key in sorted(gotset - mjset, key=sorted):
+      if key in observed and why.get(key) != "both-static":
+        rec.viol(
+          f"sensor-observed-pair-becomes-contact:{why.get(key, '?')}",
+          f"world {w}: geoms {sorted(key)} are observed by a collision sensor and rejected by MuJoCo's contact rules ({why.get(key)}), "
+          f"yet MJWarp reports a CONSTRAINT contact for them; broadphase {BroadphaseType(bp).name}",
+        )
+        continue
       rec.viol(
         f"pair-reported-but-filtered:{why.get(key, '?')}",
         f"world {w}: MJWarp reports a contact for geoms {sorted(key)} which MuJoCo's rules reject ({why.get(key)}); broadphase {BroadphaseType(bp).name}",
@@ -328,9 +479,50 @@ def run_case(case):
           if np.abs(x - e).max() > 2e-6 * max(1.0, np.abs(e).max()) or np.abs(x - r).max() > 2e-6 * max(1.0, np.abs(r).max()):
             rec.viol(f"explicit-pair-param:{f}", f"world {w}: contact of explicit pair {pid} geoms {sorted(key)} has {f}={x}, pair specifies {e}, MuJoCo contact has {r}")
         rec.cover("explicit_pair_contacts_checked", 1)
+    if not sens:
+      continue
+    # constraint rows: with equal contact lists (pairs and per-pair counts) both engines must build the same number of rows
+    # (the models have no other constraint source); a filtered pair that reached the solver shows up here as well
+    nefc = int(mw.npy(d.nefc)[w])
+    if nefc > d.njmax:
+      rec.inconcl("njmax overflow")
+    elif gotset == mjset and all(len(got[k]) == len(refg[k]) for k in gotset):
+      rec.check()
+      rec.cover("nefc_compared", 1)
+      if nefc != int(mjd.nefc):
+        rec.viol("nefc-differs-with-equal-contact-lists", f"world {w}: nefc {nefc} vs MuJoCo {int(mjd.nefc)} although both engines report the same contacts per geom pair")
+    # sensor values (secondary: the sensors must keep measuring while their pairs stay out of the contact set)
+    sd = mw.npy(d.sensordata)[w]
+    gdist = lambda a, b: float(np.linalg.norm(mjd.geom_xpos[a] - mjd.geom_xpos[b])) - float(mjm.geom_size[a][0] + mjm.geom_size[b][0])
+    for s, ps in spairs:
+      adr, dim = int(mjm.sensor_adr[s]), int(mjm.sensor_dim[s])
+      cut = float(mjm.sensor_cutoff[s])
+      ds = sorted(gdist(a, b) for a, b in ps)
+      cen = min(float(np.linalg.norm(mjd.geom_xpos[a] - mjd.geom_xpos[b])) for a, b in ps)
+      if (len(ds) > 1 and ds[1] - ds[0] < 1e-3) or abs(ds[0] - cut) < 1e-3 or cen < 1e-3:
+        rec.count("sensor_value_not_judged:tie_or_cutoff_boundary")
+        continue
+      x, r = np.asarray(sd[adr : adr + dim], dtype=np.float64), np.asarray(mjd.sensordata[adr : adr + dim], dtype=np.float64)
+      err = float(np.abs(x - r).max())
+      rec.check()
+      rec.worst("sensordata", err / 1e-3)
+      tag = SENSOR_TAGS[int(mjm.sensor_type[s])]
+      if err > 3e-2:
+        rec.viol(
+          f"collision-sensor-value:{tag}",
+          f"world {w}: sensor {s} ({tag}, cutoff {cut:g}) on geom pairs {ps} reads {x}, MuJoCo {r} (closest pair distance {ds[0]:.6g}); broadphase {BroadphaseType(bp).name}",
+        )
+      elif err > 1e-3:
+        rec.count("sensor_value_grey")
+      else:
+        rec.cover("sensor_values_agree:" + tag, 1)
   for f in feats:
     rec.cover("features", f)
   rec.cover("broadphase:" + BroadphaseType(bp).name, 1)
+  if sens:
+    rec.cover("sensor_cases", 1)
+    rec.cover("sensor_broadphase:" + BroadphaseType(bp).name, 1)
+    rec.cover("collision_sensors", len(spairs))
   rec.cover("pairs_accepted", nacc)
   rec.cover("pairs_rejected", nrej)
   if nacc > 0 and nrej > 0:
